@@ -79,7 +79,31 @@ Fixpoint cut (k : N) (st : list chunk) : list chunk :=
    content is copied, so a truncated member leaves a short file behind. *)
 Definition mem (n : str) (disk : fs) : bool := match lookup n disk with Some _ => true | None => false end.
 
-Fixpoint read_tar (st : list chunk) (clean : bool) (disk : fs) : bool * fs :=
+(* os.Symlink also needs the directory of the new name to exist; readTar creates missing parent
+   directories only for regular files (MkdirAll(filepath.Dir(name))) and for directory members.
+   `root` is the target's output directory, which exists before a retrieve. *)
+Fixpoint drop_to_slash (l : str) : option str :=
+  match l with
+  | [] => None
+  | c :: r => if c =? 47 then Some r else drop_to_slash r
+  end.
+Definition parent (n : str) : option str :=
+  match drop_to_slash (rev n) with Some r => Some (rev r) | None => None end.
+Fixpoint is_prefix (p m : str) : bool :=
+  match p, m with
+  | [], _ => true
+  | x :: p', y :: m' => (x =? y) && is_prefix p' m'
+  | _, [] => false
+  end.
+Definition has_dir (p : str) (disk : fs) : bool :=
+  existsb (fun e => str_eqb (fst e) p || is_prefix (p ++ [47]) (fst e)) disk.
+Definition parent_exists (root n : str) (disk : fs) : bool :=
+  match parent n with
+  | None => true
+  | Some p => is_prefix (p ++ [47]) (root ++ [47]) || has_dir p disk
+  end.
+
+Fixpoint read_tar (root : str) (st : list chunk) (clean : bool) (disk : fs) : bool * fs :=
   match st with
   | [] => (if clean then readtar_eof_result else readtar_error_result, disk)
   | CZero :: r =>
@@ -89,10 +113,12 @@ Fixpoint read_tar (st : list chunk) (clean : bool) (disk : fs) : bool * fs :=
       | _ => (readtar_error_result, disk)
       end
   | CPartial :: _ => (readtar_error_result, disk)
-  | CDir n :: r => read_tar r clean ((n, NDir) :: disk)
-  | CSym n t :: r => if mem n disk then (readtar_error_result, disk) else read_tar r clean ((n, NLink t) :: disk)
+  | CDir n :: r => read_tar root r clean ((n, NDir) :: disk)
+  | CSym n t :: r =>
+      if mem n disk || negb (parent_exists root n disk) then (readtar_error_result, disk)
+      else read_tar root r clean ((n, NLink t) :: disk)
   | CReg n sz d :: r =>
-      if len d =? sz then read_tar r clean ((n, NFile d) :: disk)
+      if len d =? sz then read_tar root r clean ((n, NFile d) :: disk)
       else (readtar_error_result, (n, NFile d) :: disk)
   end.
 
@@ -166,14 +192,14 @@ Inductive get_fault :=
 | GetStatus                 (* neither 200 nor 404, or the request itself fails *)
 | GetCut (k : N).           (* body cut short; k = bytes of tar stream that decompress before the error *)
 
-Definition http_retrieve (server : option blob) (g : get_fault) (disk : fs) : bool * fs :=
+Definition http_retrieve (root : str) (server : option blob) (g : get_fault) (disk : fs) : bool * fs :=
   match server with
   | None => (false, disk)
   | Some b =>
       match g with
-      | GetOk => read_tar b true disk
+      | GetOk => read_tar root b true disk
       | GetStatus => (false, disk)
-      | GetCut k => read_tar (cut k b) false disk
+      | GetCut k => read_tar root (cut k b) false disk
       end
   end.
 
@@ -196,11 +222,11 @@ Definition cmd_store (store : option blob) (files : list tree) (commit : option 
    cmd.Wait the READ end is closed, so the tar reader never sees a clean EOF: it must find the
    two zero blocks.  Result: tarOk && <-cmdResult.  `rcut`: the command emitted only that many
    bytes; `exit_ok`: it exited 0.  A missing key: the command fails with no output. *)
-Definition cmd_retrieve (store : option blob) (rcut : option N) (exit_ok : bool) (disk : fs) : bool * fs :=
+Definition cmd_retrieve (root : str) (store : option blob) (rcut : option N) (exit_ok : bool) (disk : fs) : bool * fs :=
   match store with
   | None => (false, disk)
   | Some b =>
-      let '(t, d) := read_tar (match rcut with None => b | Some k => cut k b end)
+      let '(t, d) := read_tar root (match rcut with None => b | Some k => cut k b end)
                               (negb cmd_retrieve_closes_reader) disk in
       (t && (if cmd_retrieve_needs_exit_ok then exit_ok else true), d)
   end.
@@ -256,26 +282,26 @@ Inductive case :=
 (* store `files` to an empty server, then retrieve into an empty output directory.
    observed: whether the server holds an entry afterwards, its decompressed length and member
    names, the result of Retrieve, and what is at each candidate path afterwards *)
-| CHttp (files : list tree) (put_ok : bool) (g : get_fault)
+| CHttp (root : str) (files : list tree) (put_ok : bool) (g : get_fault)
         (stored : bool) (tar_len : N) (members : list str) (hit : bool) (disk : list (str * option node))
 (* store `files` through a store command that left `commit` bytes under the key, then retrieve
    through a command that emits the first `rcut` bytes of the entry and exits 0 iff exit_ok *)
-| CCmd (files : list tree) (commit : option N) (whole : bool) (rcut : option N) (exit_ok : bool)
+| CCmd (root : str) (files : list tree) (commit : option N) (whole : bool) (rcut : option N) (exit_ok : bool)
        (members : list str) (hit : bool) (disk : list (str * option node)).
 
 Definition check (c : case) : bool :=
   match c with
-  | CHttp files put_ok g stored tar_len members hit disk =>
+  | CHttp root files put_ok g stored tar_len members hit disk =>
       let sv := http_store None files put_ok in
-      let '(h, d) := http_retrieve sv g [] in
+      let '(h, d) := http_retrieve root sv g [] in
       match sv with
       | None => negb stored
       | Some b => stored && (bytes b =? tar_len) && names_eqb (names b) members
       end && Bool.eqb h hit && disk_matches d disk
-  | CCmd files commit whole rcut exit_ok members hit disk =>
+  | CCmd root files commit whole rcut exit_ok members hit disk =>
       let sent := cmd_sent files in
       let sv := cmd_store None files commit in
-      let '(h, d) := cmd_retrieve sv rcut exit_ok [] in
+      let '(h, d) := cmd_retrieve root sv rcut exit_ok [] in
       match commit with
       | None => negb whole
       | Some k => (k <=? bytes sent) && (if whole then k =? bytes sent else true)
